@@ -274,6 +274,15 @@ Lemma background_lock_sound :
   forallb (fun fn => in_strs fn dispatcher_entries || entry_lock_sound fn) go_entries = true.
 Proof. vm_compute. reflexivity. Qed.
 
+(* the expiry sweep is ONE critical section: backgroundExpiring takes the exclusive lock once and
+   neither sweeper (nor anything they call) takes or releases the server lock, so the decision
+   "this object has expired" and its deletion cannot be separated by another command *)
+Lemma sweepers_single_section :
+  fn_takes_lock "backgroundExpireObjects" = false /\ fn_takes_lock "backgroundExpireHooks" = false /\
+  fn_takes_lock "backgroundExpiring" = true /\ entry_lock_sound "backgroundExpiring" = true /\
+  forallb (fun m => is_excl (m_ctx m)) (fn_effects "backgroundExpiring") = true.
+Proof. vm_compute. repeat split. Qed.
+
 (* multi-object commands and scripts never release the lock they run under *)
 Lemma multi_object_atomic :
   forallb (fun c => match find_handler dispatch c with
